@@ -48,7 +48,8 @@ def varintAdjust (cur : Int) (start : Int) (len : Int) (oldSize : Int) (newSize 
 
 /-- generated from length_field.go (*varintLengthField).check -/
 def varintCheck (cur : Int) (start : Int) (len : Int) (fieldSize : Int) (eInvalid : Int) (nilErr : Int) : Int :=
-  if ((Go.sub64 (Go.sub64 cur start) fieldSize) ≠ len) then
+  let fieldSize_v1 : Int := fieldSize
+  if ((fieldSize_v1 ≤ 0) ∨ ((Go.sub64 (Go.sub64 cur start) fieldSize_v1) ≠ len)) then
     eInvalid
   else
     nilErr
@@ -78,7 +79,22 @@ def prepPutBool (length : Int) : Int :=
   let length_v1 : Int := (Go.add64 length 1)
   length_v1
 
--- fun compactArrayLength: NOT TRANSLATED: call rd.remaining() is not declared in vars
+/-- generated from real_decoder.go (*realDecoder).getCompactArrayLength -/
+def compactArrayLength (n : Int) (err : Int) (nilErr : Int) (rem : Int) (off : Int) (rawLen : Int) (eInsufficient : Int) : Int × Int × Int :=
+  let err_v1 : Int := err
+  let n_v1 : Int := n
+  if (err_v1 ≠ nilErr) then
+    (0, err_v1, off)
+  else
+    if (n_v1 = 0) then
+      (0, nilErr, off)
+    else
+      let length_v1 : Int := (Go.sub64 n_v1 1)
+      if ((length_v1 < 0) ∨ (length_v1 > rem)) then
+        let off_v1 : Int := rawLen
+        (0, eInsufficient, off_v1)
+      else
+        (length_v1, nilErr, off)
 
 /-- generated from real_decoder.go (*realDecoder).getArrayLength (fragment starting at `if tmp > rd.remaining()`) -/
 def arrayLengthGuard (tmp : Int) (rem : Int) (off : Int) (rawLen : Int) (maxU16 : Int) (eInsufficient : Int) (eInvalid : Int) (nilErr : Int) : Int × Int × Int :=
